@@ -19,9 +19,14 @@ MANIFEST = {
             "function are positive integer multiples of the gradient raster, flat_time >= 0, amplitude and both ramp "
             "slopes respect the effective limits (overrides else system) up to the code's eps slack, and an area-only "
             "request is at most two rasters longer than ANY continuous-time trapezoid within the limits (AM-GM "
-            "argument without square roots).  Every transcribed expression and the tolerance eps are re-read from the "
-            "source on each run (fail-closed); the extracted model is run against make_trapezoid on ~6000 (quick) / "
-            "~300000 (thorough) calls over the seven argument sets, an invalid-argument stream (error class compared) "
+            "argument without square roots); ramps chosen on the other argument sets are the shortest raster "
+            "multiples respecting max_slew (exactly, no slack); the rendered piecewise-linear waveform has the area "
+            "field as its integral and respects the amplitude and slope limits AT EVERY TIME; and two bracketing "
+            "theorems say exactly when binary64 rounding in front of math.ceil can change a raster count (by one, "
+            "only inside an explicit band next to an integer / perfect square) - the harness admits a one-raster "
+            "divergence of model and code only inside those bands.  Every transcribed expression and the tolerance eps are re-read from the "
+            "source on each run (fail-closed); the extracted model is run against make_trapezoid on ~6400 (quick) / "
+            "~320000 (thorough) calls over the seven argument sets, an invalid-argument stream (error class compared) "
             "and an exact-threshold corpus; the property predicate is evaluated with exact Fractions on every "
             "returned event.",
     'note': 'Trusted: Coq kernel; translator patterns for make_trapezoid.py; extraction (ExtrOcamlBasic) + driver; '
@@ -43,7 +48,11 @@ RULE = ('calls drawn from the seven supported argument sets (area; area+duration
         'stream (missing or conflicting arguments, too short durations, beyond amplitude or slew limits, zero or '
         'negative rise / fall / flat times and durations on every path, bad channel) where the exception class '
         'must equal the model\'s; a threshold stream '
-        '(exactly minimal duration, exactly at a limit) that is oracle-only; and a fixed corpus incl. thresholds whose '
+        '(exactly minimal duration, exactly at a limit) that is oracle-only; a band stream whose math.ceil arguments '
+        'are (nearly) integers / perfect squares, where a one-raster divergence of model and code is admitted '
+        'exactly inside the bands of theorems ceil_robust_band / ceil_sqrt_div_robust_band; sibling calls (same '
+        'request under a system differing in the raster only / the limits only / not at all, to expose state '
+        'carried between calls); and a fixed corpus incl. thresholds whose '
         'float arithmetic is exact.  distinct = distinct calls; non-trivial = the call returned an event or raised '
         'one of the modelled exception classes other than the argument-presence ones')
 TRUSTED = ['binary64 arithmetic of make_trapezoid (sqrt, quotients before math.ceil, sums) is outside the model: sampled',
@@ -267,6 +276,27 @@ def gen_valid(rng, kind=None):
     if rng.random() < 0.35:
         a['delay'] = rng.choice([0.0, tm(rng.randint(0, 300) * R), tm(rng.uniform(0, 3e-3))])
     return case
+
+
+def sibling(rng, case):
+    """the same request once more under a system that differs in ONE respect (raster only, limits only, or
+    nothing at all): the result may depend on the arguments and the system passed, never on earlier calls"""
+    import copy
+    c = copy.deepcopy(case)
+    how = rng.choice(['raster', 'raster', 'limits', 'same'])
+    if how == 'raster':
+        c['sys']['raster'] = rng.choice([r for r in (4e-6, 5e-6, 10e-6, 20e-6) if r != c['sys']['raster']])
+        if c['kind'] == 'area_dur':
+            # the guard band of the requested duration (at least one raster above the minimum) depends on the raster
+            G, S, R = eff_limits(c)
+            n = math.ceil(cont_optimum(c['args']['area'], S, G) / R + 2 + 1e-6) + rng.choice([1, 2, 3, 10, 100])
+            c['args']['duration'] = max(c['args']['duration'], tm(n * R))
+    elif how == 'limits':
+        c['sys']['max_slew'] = c['sys']['max_slew'] * rng.choice([2, 4])
+        if c['sys']['slew_unit'] == 'Hz/m/s':
+            c['sys']['max_slew'] = float(round(c['sys']['max_slew']))
+    c['sibling'] = how
+    return c
 
 
 # ------------------------------------------------------------------------------------------------
@@ -546,6 +576,48 @@ def gen_threshold(rng):
 
 
 # ------------------------------------------------------------------------------------------------
+# band stream: requests built so that the exact argument of a math.ceil is (nearly) an integer / perfect
+# square; compared with the model, a divergence is admissible only inside the proven bands
+def gen_band(rng):
+    s = gen_system(rng)
+    o = make_opts(s)
+    G, S, R = float(o.max_grad), float(o.max_slew), float(o.grad_raster_time)
+    kind = rng.choice(['sqrt', 'sqrt_dur', 'amp_flat', 'amp_dur', 'plateau', 'flat_area'])
+    a = new_args()
+    case = {'kind': 'band.' + kind, 'sys': s, 'args': a, 'channel': rng.choice(['x', 'y', 'z']), 'threshold': False}
+    sgn = rng.choice([1, -1])
+    nudge = lambda x: x * (1 + rng.choice([0, 0, 1, -1, 2, -2]) * 2.0 ** -52)
+    if kind in ('sqrt', 'sqrt_dur'):
+        k = rng.randint(1, 80)
+        a['area'] = sgn * nudge(S * (k * R) ** 2)
+        if kind == 'sqrt_dur':
+            d_opt = cont_optimum(a['area'], S, G)
+            a['duration'] = tm((math.ceil(d_opt / R + 2 + 1e-6) + rng.randint(2, 50)) * R)
+    elif kind in ('amp_flat', 'amp_dur'):
+        kmax = max(1, int(G / (S * R)))
+        k = rng.randint(1, min(kmax, 200))
+        a['amplitude'] = sgn * nudge(S * k * R)
+        if abs(a['amplitude']) > G:
+            a['amplitude'] = sgn * G
+        if kind == 'amp_flat':
+            a['flat_time'] = tm(rng.randint(0, 300) * R)
+        else:
+            a['duration'] = tm((2 * (k + 1) + rng.randint(0, 300)) * R)
+    elif kind == 'plateau':
+        k = int(G / (S * R)) + rng.randint(3, 300)
+        a['area'] = sgn * nudge(G * (k * R))
+    else:
+        kmax = max(1, int(G / (S * R)))
+        k = rng.randint(1, min(kmax, 200))
+        ft = tm(rng.randint(1, 300) * R)
+        a['flat_time'] = ft
+        a['flat_area'] = sgn * nudge(S * k * R * ft)
+        if abs(a['flat_area']) / ft > G:
+            a['flat_area'] = sgn * G * ft * 0.5
+    return case
+
+
+# ------------------------------------------------------------------------------------------------
 # fixed corpus (run first): the calls of the repo's own tests, the reproducers of defects 14 and 18, and
 # thresholds whose binary64 arithmetic is exact (rise = 2 rasters), so the exact model decides identically
 def corpus():
@@ -607,6 +679,13 @@ def corpus():
     c('x.override_grad', area=100.0, max_grad=1e5)
     c('x.override_both', area=-100.0, max_grad=2e6, max_slew=2e10)
     c('x.delay', area=10.0, delay=1.5e-4)
+    # round-2 findings (a) and (c): exactly triangular request with asymmetric ramps whose binary64 sum rounds
+    # up (rejected today, accepted with the proposed eps-tolerant test); over-determined request whose
+    # `duration` is ignored today (rejected with the proposed consistency test)
+    c('f.a.triangle_asym', area=1.0, duration=3e-4, rise_time=1e-4, fall_time=2e-4)
+    c('f.a.triangle_sym', area=1.0, duration=6e-5, rise_time=3e-5)
+    c('f.c.duration_ignored', area=1.0, duration=1e-3, flat_time=2e-4, rise_time=1e-4)
+    c('f.c.duration_consistent', area=1.0, duration=4e-4, flat_time=2e-4, rise_time=1e-4)
     # non-positive ramps / negative flat time must be rejected (final timing validation)
     c('w.neg_flat', amplitude=1000.0, flat_time=-1e-4)
     c('w.neg_flat_fa', flat_area=1.0, flat_time=-1e-3)
@@ -638,6 +717,7 @@ def classify(e):
         ('AssertionError', 'Probably amplitude is violated', 'not_possible'),
         ('ValueError', 'too short for the given `rise_time`', 'dur_short_rise'),
         ('ValueError', 'Must supply `rise_time`', 'must_rise'),
+        ('ValueError', 'The `duration` is inconsistent', 'dur_inconsistent'),
         ('ValueError', 'Must supply area or duration', 'area_or_duration'),
         ('ValueError', 'Invalid timing:', 'timing'),
         ('ValueError', 'Refined amplitude', 'amp'),
@@ -678,6 +758,23 @@ def impl_call(case):
     return ('OK', vals)
 
 
+_EXPECT = None
+
+
+def expect():
+    """EXPECT of the translator plug-in: which form of the two proposed repairs the repository is expected to have"""
+    global _EXPECT
+    if _EXPECT is None:
+        import importlib.util
+        import os
+        path = os.path.join(os.path.dirname(os.path.dirname(os.path.abspath(__file__))), 'gensec', 'trap.py')
+        spec = importlib.util.spec_from_file_location('gensec_trap_for_c11', path)
+        m = importlib.util.module_from_spec(spec)
+        spec.loader.exec_module(m)
+        _EXPECT = dict(m.EXPECT)
+    return _EXPECT
+
+
 # ------------------------------------------------------------------------------------------------
 # oracle: the property's predicate, exact Fractions on the returned event
 def oracle(ctx, case, vals):
@@ -695,6 +792,12 @@ def oracle(ctx, case, vals):
         ctx.fail('C11/' + sig_, case, {k: (float(v) if isinstance(v, Fraction) else v) for k, v in detail.items()})
     wave_area = amp * (rise / 2 + flat + fall / 2)
     only = lambda k: a[k] is not None and all(a[j] is None for j in ('area', 'flat_area', 'amplitude') if j != k)
+    # a requested flat_time in (-eps, 0) is treated by the code as rounding noise and replaced by 0; the exact
+    # clauses on area / flat area / flat time are stated for requests with flat_time >= 0 (see Props/C11.v)
+    noise_flat = a['flat_time'] is not None and -1e-9 < a['flat_time'] < 0
+    if noise_flat:
+        ctx.count('oracle.requested_flat_time_in_clamp_band')
+        only = lambda k: False
     # requested area / flat area / amplitude
     if only('area') and not close(wave_area, F(a['area']), F(a['area'])):
         bad('area', requested=a['area'], realised=wave_area)
@@ -706,7 +809,16 @@ def oracle(ctx, case, vals):
     if a['duration'] is not None and a['flat_time'] is None:
         if not close(rise + flat + fall, F(a['duration']), F(a['duration'])):
             bad('duration', requested=a['duration'], returned=rise + flat + fall)
-    if a['flat_time'] is not None and not close(flat, F(a['flat_time']), F(a['flat_time'])):
+    if a['duration'] is not None and a['flat_time'] is not None and a['flat_time'] >= 0 and only('area'):
+        # over-determined request: the repository ignores `duration` here (round-2 finding, proposed repair
+        # c11_fixC); demanded as soon as gensec/trap.py EXPECT says the code checks it
+        honoured = close(rise + flat + fall, F(a['duration']), F(a['duration']), ab=Fraction(1001, 10 ** 12))
+        if expect()['flat_checks_duration']:
+            if not honoured:
+                bad('duration', requested=a['duration'], returned=rise + flat + fall, with_flat_time=a['flat_time'])
+        elif not honoured:
+            ctx.count('finding.duration_ignored_with_flat_time')
+    if a['flat_time'] is not None and not noise_flat and not close(flat, F(a['flat_time']), F(a['flat_time'])):
         bad('flat_time', requested=a['flat_time'], returned=flat)
     area_only = only('area') and a['duration'] is None and a['flat_time'] is None
     if not area_only:
@@ -759,6 +871,83 @@ def oracle(ctx, case, vals):
 
 
 # ------------------------------------------------------------------------------------------------
+# binary64 in front of math.ceil: the bands of Props/C11.v ceil_robust_band / ceil_sqrt_div_robust_band.
+# The model evaluates ceil(q) and ceil(sqrt(x)/r) exactly, the code on a computed value with a relative
+# error below DELTA (two or three correctly rounded operations: < 2^-51).  By the two theorems the integer
+# can differ (by exactly one) only if the exact argument lies in these bands; a one-raster divergence of
+# model and code is admissible exactly then.
+DELTA = Fraction(1, 2 ** 50)
+
+
+def _iceil(q):
+    return -((-q.numerator) // q.denominator)
+
+
+def band_plain(q):
+    """exact q >= 0 handed to math.ceil: (n = ceil(q), may the code obtain n+1 / n-1)"""
+    n = _iceil(q)
+    up = q <= n < q + DELTA * abs(q)
+    down = q - DELTA * abs(q) <= n - 1 < q
+    return n, (up or down)
+
+
+def band_sqrt(y):
+    """exact y = x / r^2 >= 0 whose square root is handed to math.ceil"""
+    c = _iceil(y)
+    n = math.isqrt(c)
+    if n * n < c:
+        n += 1
+    up = y <= n * n < (1 + DELTA) ** 2 * y
+    down = n >= 1 and (1 - DELTA) ** 2 * y <= (n - 1) ** 2 < y
+    return n, (up or down)
+
+
+def ceil_bands(case):
+    """names of the math.ceil calls reached by this request whose exact argument lies in its band
+    (an independent exact evaluation of the arguments, not the model)"""
+    a = case['args']
+    given = [k for k in ('area', 'flat_area', 'amplitude') if a[k] is not None]
+    if len(given) != 1 or case['channel'] not in ('x', 'y', 'z'):
+        return []
+    o = make_opts(case['sys'])
+    G = F(a['max_grad']) if a['max_grad'] is not None else F(o.max_grad)
+    S = F(a['max_slew']) if a['max_slew'] is not None else F(o.max_slew)
+    R = F(o.grad_raster_time)
+    if G <= 0 or S <= 0 or R <= 0:
+        return []
+    r0 = a['rise_time'] or a['fall_time']
+    hits = []
+    if given[0] == 'area':
+        if a['flat_time'] is not None or (a['duration'] is not None and r0 is not None):
+            return []
+        A = abs(F(a['area']))
+        n1, b1 = band_sqrt(A / S / (R * R))
+        if b1:
+            hits.append('sqrt')
+        rise1 = max(n1, 1) * R
+        if A / rise1 > G + Fraction(1, 10 ** 9):
+            n2, b2 = band_plain(A / G / R)
+            if b2:
+                hits.append('effective_time')
+            if n2 > 0:
+                _, b3 = band_plain(A / (n2 * R) / S / R)
+                if b3:
+                    hits.append('plateau_rise')
+    elif given[0] == 'amplitude':
+        if r0 is None:
+            _, b = band_plain(abs(F(a['amplitude'])) / S / R)
+            if b:
+                hits.append('amplitude_rise')
+    else:
+        if r0 is None and a['flat_time']:
+            amp = abs(F(a['flat_area']) / F(a['flat_time']))
+            _, b = band_plain(max(amp / S, R) / R)
+            if b:
+                hits.append('flat_area_rise')
+    return hits
+
+
+# ------------------------------------------------------------------------------------------------
 # model
 def model_line(case):
     a = case['args']
@@ -784,8 +973,9 @@ def parse_model(line):
 
 
 def compare(ctx, case, impl, model, oracle_fails):
-    """model vs implementation; a one-raster difference of a chosen ramp caused by binary64 rounding in front
-    of math.ceil is benign only if the implementation's event satisfies the oracle"""
+    """model vs implementation; a one-raster difference of a chosen timing is benign only if the exact argument of a
+    math.ceil reached by the call lies in its binary64 band (theorems ceil_robust_band, ceil_sqrt_div_robust_band)
+    AND the implementation's event satisfies the oracle"""
     if impl[0] != model[0]:
         ctx.mismatch('make', case, {'impl': impl[0] + ' ' + (impl[1] if impl[0] == 'ERR' else ''),
                                     'model': model[0] + ' ' + (model[1] if model[0] == 'ERR' else '')})
@@ -801,13 +991,21 @@ def compare(ctx, case, impl, model, oracle_fails):
     if not diffs:
         return
     R = F(make_opts(case['sys']).grad_raster_time)
-    step = abs(impl[1][1] - model[1][1]) / R
-    one_raster = close(step, Fraction(1), 1, rel=Fraction(1, 10 ** 6))
-    if one_raster and not oracle_fails:
-        ctx.benign_divergence('make', case, {'diffs': diffs, 'why': 'ceil of a float quotient within 1 ulp of an integer'})
+    one = R * (1 + Fraction(1, 10 ** 6))
+    d_rise = abs(impl[1][1] - model[1][1])
+    d_fall = abs(impl[1][3] - model[1][3])
+    d_tot = abs(sum(impl[1][1:4]) - sum(model[1][1:4]))
+    raster_step = d_rise <= one and d_fall <= one and d_tot <= 2 * one
+    bands = ceil_bands(case)
+    if bands and raster_step and not oracle_fails:
+        # admissible by ceil_robust_band / ceil_sqrt_div_robust_band, and the event still satisfies the property
+        ctx.benign_divergence('make', case, {'diffs': diffs, 'bands': bands,
+                                             'why': 'exact argument of math.ceil within its binary64 band'})
         ctx.count('corr.benign_ceil_flip')
+        if not case['kind'].startswith('band'):
+            ctx.count('corr.benign_ceil_flip_outside_band_stream')
     else:
-        ctx.mismatch('make', case, {'diffs': diffs})
+        ctx.mismatch('make', case, {'diffs': diffs, 'bands': bands})
 
 
 def process(ctx, cases):
@@ -823,8 +1021,11 @@ def process(ctx, cases):
         key = (c['channel'], tuple(sorted(c['sys'].items())), tuple(sorted((k, v) for k, v in c['args'].items())))
         nontrivial = r[0] == 'OK' or r[1] not in PRESENCE_CLASSES
         ctx.evaluated(key, nontrivial=nontrivial)
-        ctx.count('kind.' + c['kind'].split('.')[0] + ('.' + c['kind'].split('.')[1] if c['kind'].startswith(('inv', 'thr')) else ''))
+        ctx.count('kind.' + c['kind'].split('.')[0] + ('.' + c['kind'].split('.')[1] if c['kind'].startswith(('inv', 'thr', 'band')) else ''))
         ctx.count('result.' + ('OK' if r[0] == 'OK' else 'ERR.' + r[1].split(':')[0]))
+        for b in ceil_bands(c):
+            ctx.count('band.' + b)
+            ctx.count('band.cases.' + ('band_stream' if c['kind'].startswith('band') else 'other_streams'))
         if r[0] == 'OK':
             ctx.count('raster.%gus' % (c['sys']['raster'] * 1e6))
             ctx.count('units.%s|%s' % (c['sys']['grad_unit'], c['sys']['slew_unit']))
@@ -834,6 +1035,8 @@ def process(ctx, cases):
                 ctx.count('ramps.' + c['ramps'])
             if c.get('regime'):
                 ctx.count('regime.' + c['regime'])
+            if c.get('sibling'):
+                ctx.count('sibling.' + c['sibling'])
             v = r[1]
             ctx.count('sign.' + ('zero' if v[0] == 0 else 'pos' if v[0] > 0 else 'neg'))
             ctx.count('shape.' + ('triangle' if v[2] == 0 else 'trapezoid'))
@@ -849,7 +1052,7 @@ def process(ctx, cases):
 def run(ctx):
     n = {'quick': 6000, 'thorough': 300000}[ctx.tier]
     process(ctx, corpus())
-    rv, ri, rt = ctx.rng('valid'), ctx.rng('invalid'), ctx.rng('threshold')
+    rv, ri, rt, rb = ctx.rng('valid'), ctx.rng('invalid'), ctx.rng('threshold'), ctx.rng('band')
     done = 0
     batch = 1000
     while done < n:
@@ -859,20 +1062,27 @@ def run(ctx):
         cases = []
         for i in range(batch):
             u = (done + i) % 20
-            if u < 14:
+            if u < 13:
                 cases.append(gen_valid(rv))
-            elif u < 18:
+                if rv.random() < 0.1:
+                    cases.append(sibling(rv, cases[-1]))
+            elif u < 17:
                 cases.append(gen_invalid(ri))
-            else:
+            elif u < 19:
                 cases.append(gen_threshold(rt))
+            else:
+                cases.append(gen_band(rb))
         impls = process(ctx, cases)
         if done == 0:
             for c, r in zip(cases[:40:10], impls[:40:10]):
                 ctx.sample({'case': c, 'result': r[0], 'fields_or_class': [float(v) for v in r[1]] if r[0] == 'OK' else r[1]})
         done += batch
-    if ctx.model_cases and len(ctx.benign) > BENIGN_BUDGET * ctx.model_cases + 2:
-        ctx.mismatch('make', {'note': 'benign-divergence budget exceeded'},
-                     {'benign': len(ctx.benign), 'model_cases': ctx.model_cases})
+    # divergences inside the dedicated band stream are justified case by case by the band theorems; elsewhere
+    # (random values) they must stay rare
+    outside = ctx.dist.get('corr.benign_ceil_flip_outside_band_stream', 0)
+    if ctx.model_cases and outside > BENIGN_BUDGET * ctx.model_cases + 2:
+        ctx.mismatch('make', {'note': 'benign-divergence budget exceeded outside the band stream'},
+                     {'benign_outside_band_stream': outside, 'model_cases': ctx.model_cases})
 
 
 def replay(ctx, case):
